@@ -57,8 +57,15 @@ def compareCi3 : List Nat → List Nat → Int
     if cl ≠ cr then cl - cr else compareCi3 as bs
   | _, _ => 0
 
-/-- `static_cast<int>(lsize - rsize)`: the `size_t` subtraction wraps mod 2^64, the conversion to
-    `int` keeps the low 32 bits as two's complement. -/
+/-- what `compare` returns when the common prefix is equal:
+    `(lsize < rsize) ? -1 : (lsize > rsize) ? 1 : 0` (since the `fix:` commit "compare returned the
+    size difference narrowed to int"; before it the code returned `sizeDiffNarrowed` below). -/
+def sizeOrder (lsize rsize : Nat) : Int :=
+  if lsize < rsize then -1 else if lsize > rsize then 1 else 0
+
+/-- the pinned tree's `static_cast<int>(lsize - rsize)`: the `size_t` subtraction wraps mod 2^64,
+    the conversion to `int` keeps the low 32 bits as two's complement.  No longer used by the model;
+    kept so that the defect that was repaired stays stated (Props/C06 `narrowed_difference_*`). -/
 def sizeDiffNarrowed (lsize rsize : Nat) : Int := toI32 (wrap64 ((lsize : Int) - (rsize : Int)))
 
 /-- `buffer<char_T>::compare(left, lsize, right, rsize)`.  `l`, `r` are what is readable at the two
@@ -67,13 +74,13 @@ def sizeDiffNarrowed (lsize rsize : Nat) : Int := toI32 (wrap64 ((lsize : Int) -
 def compareSized (e : Elem) (l : List Nat) (lsize : Nat) (r : List Nat) (rsize : Nat) : Int :=
   let cmplen := min lsize rsize
   let cmp := traitsCompare e (l.take cmplen) (r.take cmplen)
-  if cmp ≠ 0 then cmp else sizeDiffNarrowed lsize rsize
+  if cmp ≠ 0 then cmp else sizeOrder lsize rsize
 
 /-- `_ST_PRIVATE::compare_ci(left, lsize, right, rsize)` -/
 def compareCiSized (l : List Nat) (lsize : Nat) (r : List Nat) (rsize : Nat) : Int :=
   let cmplen := min lsize rsize
   let cmp := compareCi3 (l.take cmplen) (r.take cmplen)
-  if cmp ≠ 0 then cmp else sizeDiffNarrowed lsize rsize
+  if cmp ≠ 0 then cmp else sizeOrder lsize rsize
 
 /-- the 5-argument forms: both sizes clamped to `maxlen` first -/
 def compareSizedN (e : Elem) (l : List Nat) (lsize : Nat) (r : List Nat) (rsize : Nat) (maxlen : Nat) : Int :=
